@@ -3,7 +3,7 @@ import ast
 from contracts import rt_run, core
 from pyvc.report import Report
 from pyvc import frag, runtime, astutil
-from .common import run_rt, run_fragments
+from .common import run_rt, run_fragments, dependency_layer
 
 
 def run(tier, seed):
@@ -23,4 +23,5 @@ def run(tier, seed):
                            'that the key is not memoised is PROVED from the branch conditions')
     rep.assumptions.append('running time is not observed: the bound (#rules x (len+1)) follows from started[K] <= 1 and from keys being (rule, position) pairs')
     rep.assumptions.append('generator protocol (proved for emitted rule functions by the fragment contracts): send returns a request (CALL, f, p) or a final (status, result, pos)')
+    dependency_layer(rep, tier)
     return rep.finish()
